@@ -86,6 +86,17 @@ ImplReadComplete(body) ==
   IF Len(body) = 0 THEN [pairs |-> << >>, err |-> FALSE]
   ELSE [pairs |-> r.pairs, err |-> r.err \/ (StopRule # "six" /\ r.leftover > 0)]
 
+\* C04 at design level: the loop's position stays inside the body, every iteration consumes at least the
+\* 4 bytes of the shortest pair (variant), so the number of iterations is bounded by the input length
+LoopBounded ==
+  Kind = "mapping" =>
+    LET m == RefReadMapping(w) IN
+    m.framed =>
+      LET body == Slice(w, 2, m.consumed - 2)
+          r == ImplLoop(body, 0, << >>, 0) IN
+      /\ r.leftover \in 0..Len(body)
+      /\ 4 * Len(r.pairs) <= Len(body) + 4
+
 ImplRefinesGrammar ==
   Kind = "mapping" =>
     LET m == RefReadMapping(w) IN
